@@ -1,7 +1,7 @@
 import os
 import vlib
 
-THEOREMS = []
+THEOREMS = ["Dispenso.ConVec." + t for t in ['C32_sub_lt_cap', 'C32_index_decomp', 'C32_cap_eq', 'C32_bucket_inverse', 'C32_buckets_tile', 'C32_bucket_injective', 'C32_ledger', 'C32_all_destroyed', 'C32_wf_reachable', 'C32_sem_pushBack', 'C32_sem_growBy', 'C32_sem_growByVal', 'C32_sem_growByRange', 'C32_sem_growToAtLeast', 'C32_sem_insert1', 'C32_sem_insertN', 'C32_sem_insertRange', 'C32_sem_erase1', 'C32_sem_eraseRange', 'C32_sem_resize', 'C32_sem_resizeVal', 'C32_sem_popBack', 'C32_sem_clear', 'C32_sem_assign', 'C32_sem_assignRange', 'C32_sem_copyCtor', 'C32_sem_moveCtor', 'C32_sem_copyAssign', 'C32_sem_moveAssign', 'C32_sem_swap', 'C32_sem_reserve', 'C32_sem_shrinkToFit', 'C32_sem_destroy', 'C32_sem_frame']]
 
 
 def run(ctx, replay):
